@@ -101,7 +101,7 @@ def build_table(vc, meta, unit):
                 ctags = c['tags'] if c['tags'] else ftags
                 table.append({'id': '%s/loop%d/%s#%d' % (base, k, c['section'], m), 'fn': q, 'kind': 'loop_' + c['section'], 'tags': ctags, 'text': c['text'],
                               'vcfile': p, 'vcline': (c['line_start'], c['line_end']), 'explicit': bool(c['tags'])})
-        table.append({'id': base + '/body', 'fn': q, 'kind': 'body', 'tags': ftags,
+        table.append({'id': base + '/body', 'fn': q, 'kind': 'body', 'tags': list(f.get('body_tags') or ftags),
                       'text': 'body of %s: panic freedom (overflow, bounds, unwrap), callee preconditions, hint assertions, termination' % q,
                       'contracted': True, 'file': f['file'], 'line': f['line']})
     return table
